@@ -865,7 +865,15 @@ def apply_proj(tb, base, proj, stack, fn):
                 # closure environment field -> upvar
                 idx = e["i"]
                 ups = fn.d.get("upvars") or []
-                if tb is not None and tb.upvars is not None and idx < len(tb.upvars):
+                other = None
+                if e.get("closure") and e["closure"] != fn.d.get("path") and tb is not None and getattr(tb, "facts", None) is not None:
+                    # the environment of ANOTHER closure (one that was spliced into this function and is reached through a
+                    # captured reference): its own capture list names the field
+                    other = tb.facts.fns.get(e["closure"])
+                if other is not None and other.d.get("upvars") and idx < len(other.d["upvars"]) and not (
+                        isinstance(t, tuple) and t == ("closure_env",)):
+                    t = ("upvar", other.d["upvars"][idx]["name"].lstrip("*"))
+                elif tb is not None and tb.upvars is not None and idx < len(tb.upvars):
                     t = tb.upvars[idx]
                 else:
                     nm = ups[idx]["name"] if idx < len(ups) else "up%d" % idx
@@ -1293,6 +1301,7 @@ class _EnvTB:
         self.sim = sim
         self.env = env
         self.upvars = sim.tb.upvars
+        self.facts = sim.facts
 
     def local(self, l, stack=()):
         return self.sim.get_local(self.env, l)
